@@ -250,7 +250,6 @@ mod real {
                 if cohere
                     && r.owned()
                     && hf == 1
-                    && (r.flags() & libc::MAP_SHARED) != 0
                     && (r.flags() & libc::MAP_ANONYMOUS) == 0
                     && (r.prot() & 3) == 3
                     && r.size() > 0
